@@ -523,10 +523,10 @@ func runExporterRow(k *vf.Case, r xrow) {
 		expected := map[string]string{}
 		if r.setting == "headers" {
 			if r.opt == 'v' {
-				a.headers = map[string]string{"src": "option"}
+				a.headers = map[string]string{"src": "option", "only-opt": "1"}
 			}
-			valSpec = vf.Pick(k.R, []string{"src=specific,only-spec=1", " src = specific ,x=y", "src=sp%65cific"})
-			valGen = vf.Pick(k.R, []string{"src=generic", "a=b, src=generic", "src=gen%65ric"})
+			valSpec = vf.Pick(k.R, []string{"src=specific,only-spec=1", " src = specific ,only-spec=1", "only-spec=1,src=sp%65cific"})
+			valGen = vf.Pick(k.R, []string{"src=generic,only-gen=1", "only-gen=1, src=generic", "src=gen%65ric,only-gen=1"})
 			if r.spec == 'i' {
 				valSpec = invalidHeaders[r.invalidVariant%len(invalidHeaders)]
 			}
@@ -605,6 +605,24 @@ func runExporterRow(k *vf.Case, r xrow) {
 			got = rs[0].Compression
 			if got == "identity" {
 				got = ""
+			}
+		}
+		if r.setting == "headers" {
+			// the header list as a whole comes from one source: a key that only a lower-precedence source
+			// carries must not be sent along
+			hv := func(name string) bool {
+				for hk := range rs[0].Header {
+					if strings.EqualFold(hk, name) {
+						return true
+					}
+				}
+				return false
+			}
+			marker := map[string]string{"option": "only-opt", "specific": "only-spec", "generic": "only-gen"}
+			for src, mk := range marker {
+				if hv(mk) && src != got && got != "" {
+					fail("headers-merged-across-sources", r.setting, fmt.Sprintf("the request carries %q (from the %s source) next to src=%q", mk, src, got))
+				}
 			}
 		}
 		accept := map[string]bool{expected[want]: true}
@@ -795,11 +813,16 @@ type srow struct {
 	env       string // "" = absent
 	envValid  bool
 	option    bool
-	optBad    bool // the option is given with a negative value
+	optBad    bool   // the option is given with a negative value
+	env2      string // span limits: value of the generic OTEL_ATTRIBUTE_* variable set next to the span-specific one ("" = absent)
 }
 
 func (r srow) String() string {
-	return fmt.Sprintf("%s %s env=%q option=%v option-negative=%v", r.comp, r.key, r.env, r.option, r.optBad)
+	g := ""
+	if r.env2 != "" {
+		g = fmt.Sprintf(" generic-env=%q", r.env2)
+	}
+	return fmt.Sprintf("%s %s env=%q%s option=%v option-negative=%v", r.comp, r.key, r.env, g, r.option, r.optBad)
 }
 
 var badInts = []string{"abc", "1.5", "-1", "-2147483649", "99999999999999999999", "0x10", " 5 ", "0"}
@@ -808,17 +831,17 @@ func sdkRows() []srow {
 	var rows []srow
 	add := func(comp, key string, valid string) {
 		for _, opt := range []bool{false, true} {
-			rows = append(rows, srow{comp, key, "", false, opt, false})
-			rows = append(rows, srow{comp, key, valid, true, opt, false})
+			rows = append(rows, srow{comp, key, "", false, opt, false, ""})
+			rows = append(rows, srow{comp, key, valid, true, opt, false, ""})
 			for _, b := range badInts {
-				rows = append(rows, srow{comp, key, b, false, opt, false})
+				rows = append(rows, srow{comp, key, b, false, opt, false, ""})
 			}
 		}
 		if comp == "bsp" || comp == "blrp" {
-			rows = append(rows, srow{comp, key, "", false, false, true})
-			rows = append(rows, srow{comp, key, valid, true, false, true})
-			rows = append(rows, srow{comp, key, "-1", false, false, true})
-			rows = append(rows, srow{comp, key, "abc", false, false, true})
+			rows = append(rows, srow{comp, key, "", false, false, true, ""})
+			rows = append(rows, srow{comp, key, valid, true, false, true, ""})
+			rows = append(rows, srow{comp, key, "-1", false, false, true, ""})
+			rows = append(rows, srow{comp, key, "abc", false, false, true, ""})
 		}
 	}
 	for _, key := range []string{"OTEL_BSP_MAX_QUEUE_SIZE", "OTEL_BSP_MAX_EXPORT_BATCH_SIZE", "OTEL_BSP_SCHEDULE_DELAY", "OTEL_BSP_EXPORT_TIMEOUT"} {
@@ -831,13 +854,27 @@ func sdkRows() []srow {
 		"OTEL_SPAN_ATTRIBUTE_VALUE_LENGTH_LIMIT", "OTEL_ATTRIBUTE_VALUE_LENGTH_LIMIT"} {
 		add("spanlimits", key, "7")
 	}
+	// the span-specific variable next to the generic one (documented: the span-specific one wins when set)
+	for _, key := range []string{"OTEL_SPAN_ATTRIBUTE_COUNT_LIMIT", "OTEL_SPAN_ATTRIBUTE_VALUE_LENGTH_LIMIT"} {
+		dflt := "128"
+		if strings.Contains(key, "VALUE_LENGTH") {
+			dflt = "-1"
+		}
+		for _, spec := range []string{"", "7", dflt, "abc", "0"} {
+			for _, gen := range []string{"2", "abc", "-1", "5"} {
+				for _, opt := range []bool{false, true} {
+					rows = append(rows, srow{comp: "spanlimits", key: key, env: spec, envValid: spec == "7", option: opt, env2: gen})
+				}
+			}
+		}
+	}
 	for _, key := range []string{"OTEL_LOGRECORD_ATTRIBUTE_COUNT_LIMIT", "OTEL_LOGRECORD_ATTRIBUTE_VALUE_LENGTH_LIMIT"} {
 		add("loglimits", key, "7")
 	}
 	for _, s := range []string{"always_on", "always_off", "traceidratio", "parentbased_always_on", "parentbased_always_off", "parentbased_traceidratio", "bogus", "", " ALWAYS_OFF "} {
 		for _, arg := range []string{"", "0.25", "abc", "-1", "2", "1e-400", " 0.25 "} {
 			for _, opt := range []bool{false, true} {
-				rows = append(rows, srow{"sampler", s, arg, true, opt, false})
+				rows = append(rows, srow{"sampler", s, arg, true, opt, false, ""})
 			}
 		}
 	}
@@ -1118,6 +1155,9 @@ func runSDKRow(k *vf.Case, r srow) {
 		if r.env != "" {
 			os.Setenv(r.key, r.env)
 		}
+		if r.env2 != "" {
+			os.Setenv(strings.Replace(r.key, "OTEL_SPAN_", "OTEL_", 1), r.env2)
+		}
 		var popts []sdktrace.TracerProviderOption
 		rec := &probeProc{}
 		popts = append(popts, sdktrace.WithSpanProcessor(rec), sdktrace.WithSampler(sdktrace.AlwaysSample()))
@@ -1180,22 +1220,41 @@ func runSDKRow(k *vf.Case, r srow) {
 		if want > full {
 			want = full
 		}
+		meaning := func(v string) (int, bool) { // what an integer means for a limit: negative = unlimited
+			iv, err := strconv.Atoi(v)
+			if err != nil {
+				return 0, false
+			}
+			if iv < 0 {
+				return full, true
+			}
+			return min(iv, full), true
+		}
 		accept := map[int]bool{want: true}
-		if r.env != "" && !r.envValid && !r.option {
-			if iv, err := strconv.Atoi(r.env); err == nil {
-				// an integer has a documented meaning: negative = unlimited, 0 = none
-				delete(accept, want)
-				if iv < 0 {
-					accept[full] = true
-				} else {
-					accept[min(iv, full)] = true
+		if !r.option {
+			specV, specOK := meaning(r.env)
+			genV, genOK := meaning(r.env2)
+			switch {
+			case r.env != "" && specOK: // the span-specific variable holds an integer: it decides
+				accept = map[int]bool{specV: true}
+			case r.env != "": // unparsable: the default, or as if absent (then the generic variable)
+				accept = map[int]bool{def: true}
+				if genOK {
+					accept[genV] = true
 				}
-			} else {
-				accept[def] = true
+			case r.env2 != "" && genOK:
+				accept = map[int]bool{genV: true}
+			default:
+				accept = map[int]bool{def: true}
 			}
 		}
 		if !accept[got] {
-			fail("effective-value", r.key, fmt.Sprintf("probe span shows %d, expected %d (option > environment > default)", got, want))
+			var exp []int
+			for v := range accept {
+				exp = append(exp, v)
+			}
+			sort.Ints(exp)
+			fail("effective-value", r.key, fmt.Sprintf("probe span shows %d, expected one of %v (option > span-specific variable > generic variable > default)", got, exp))
 		}
 	case "loglimits":
 		if r.env != "" {
